@@ -3,8 +3,10 @@ The display-hook protocol of `with tag:` blocks (htmltools/_core.py:692-707 `Tag
 1015-1034 `wrap_displayhook_handler`, 723-728 `Tag.append`, 283-294 `TagList.extend/append`,
 1927-1944 `_tagchilds_to_tagnodes`, _util.py:80-100 `flatten`).
 
-Programs are an inductive type (statements `display v`, `with tag: body`, `raise`), so "any nesting of with-blocks,
-with or without exceptions" is a quantifier over `Prog`/`Progs`.  The process-global `sys.displayhook` is the `hook`
+Programs are an inductive type (statements `display v`, `with tag: body`, `raise`, and `rebind`: a tag is given a new
+child-list object holding the same nodes), so "any nesting of with-blocks, with or without exceptions" is a quantifier
+over `Prog`/`Progs`.  Displayed values include lists and tuples (nested), TagLists, Tagifiable objects and objects that
+are Tagifiable and self-rendering at once (`Val`/`Vals`).  The process-global `sys.displayhook` is the `hook`
 field of the state; each tag carries its `children` and its `prev_displayhook`; the outermost hook is the harness's
 recorder, which appends whatever it is handed to a log and never raises (the guard of DESIGN §6 C17).
 Tags are mutable objects referred to by identity: a stored child that is a Tag is a *reference* (`Item.tagRef`).
@@ -26,25 +28,58 @@ inductive HookId
   | unset
   deriving DecidableEq, Repr, Inhabited
 
-/-- a displayed Python value -/
-inductive Val
-  | none                    -- `None`
-  | ellipsis                -- `...`
-  | text (s : Str)          -- `str`
-  | num (s : Str)           -- `int` / `float` / `bool`; `s` = `str(value)`, supplied by the harness
-  | html (s : Str)          -- `HTML(s)`
-  | reprHtml (s : Str)      -- object whose `_repr_html_()` returns `s` (no `tagify`)
-  | tagRef (t : TagId)      -- the Tag object `t`
-  | invalid                 -- any object that is none of the above and not a list/tuple/TagList (dict, bytes, object(), …)
-  deriving DecidableEq, Repr, Inhabited
-
 /-- a stored child (`TagNode`) -/
 inductive Item
   | text (s : Str)
   | html (s : Str)
-  | robj (s : Str)          -- `_repr_html_` object kept as the object (only via a direct `append`)
+  | robj (s : Str)          -- `_repr_html_` object kept as the object (direct `append`, or inside a displayed list/tuple)
   | tagRef (t : TagId)      -- reference to the Tag object `t`
+  | tobj (s : Str)          -- Tagifiable object (has `tagify`, no `_repr_html_`) named `s`, kept as the object
+  | trobj (s : Str)         -- object named `s` with `tagify` AND `_repr_html_` (JSXTag, widgets), kept as the object
   deriving DecidableEq, Repr, Inhabited
+
+mutual
+  /-- a displayed Python value -/
+  inductive Val
+    | none                    -- `None`
+    | ellipsis                -- `...`
+    | text (s : Str)          -- `str`
+    | num (s : Str)           -- `int` / `float` / `bool`; `s` = `str(value)`, supplied by the harness
+    | html (s : Str)          -- `HTML(s)`
+    | reprHtml (s : Str)      -- object whose `_repr_html_()` returns `s` (no `tagify`)
+    | tagRef (t : TagId)      -- the Tag object `t`
+    | invalid                 -- an object that is no TagChild at all (dict, bytes, object(), …)
+    | tagifiable (s : Str)    -- object named `s` with `tagify` only
+    | tagifiableRepr (s : Str)  -- object named `s` with `tagify` and `_repr_html_` (e.g. a `JSXTag`)
+    | tagList (its : List Item) -- a `TagList`; it holds normalised nodes already
+    | list (vs : Vals)        -- `list`
+    | tuple (vs : Vals)       -- `tuple`
+  inductive Vals
+    | nil
+    | cons (v : Val) (vs : Vals)
+end
+
+deriving instance DecidableEq for Val, Vals
+deriving instance Repr for Val, Vals
+instance : Inhabited Val := ⟨.none⟩
+instance : Inhabited Vals := ⟨.nil⟩
+
+def Vals.ofList : List Val → Vals
+  | [] => .nil
+  | v :: vs => .cons v (Vals.ofList vs)
+
+def Vals.toList : Vals → List Val
+  | .nil => []
+  | .cons v vs => v :: vs.toList
+
+/-- the Python object a stored child is (a TagList hands its elements on as they are) -/
+def Item.toVal : Item → Val
+  | .text s => .text s
+  | .html s => .html s
+  | .robj s => .reprHtml s
+  | .tagRef t => .tagRef t
+  | .tobj s => .tagifiable s
+  | .trobj s => .tagifiableRepr s
 
 inductive Outcome
   | done
@@ -57,6 +92,7 @@ mutual
     | display (v : Val)                     -- `sys.displayhook(v)`
     | block (t : TagId) (body : Progs)      -- `with tag_t: body`
     | raise                                 -- `raise SomeException()`
+    | rebind (t : TagId)                    -- `tag_t.children = <a new TagList holding the same nodes>`
   inductive Progs
     | nil
     | cons (p : Prog) (ps : Progs)
@@ -86,23 +122,54 @@ structure St where
 
 /-- `handler_wrapper` (_core.py:1026-1032): the value handed on to `handler`, `none` = handler not called -/
 def wrapFilter : Val → Option Val
-  | .tagRef t => some (.tagRef t)       -- isinstance(value, (Tag, TagList, Tagifiable))
+  | .tagRef t => some (.tagRef t)       -- isinstance(value, (Tag, TagList, Tagifiable)): handler(value)
+  | .tagList its => some (.tagList its)
+  | .tagifiable s => some (.tagifiable s)
+  | .tagifiableRepr s => some (.tagifiableRepr s)   -- it has `_repr_html_` too, but the first test wins: kept as the object
   | .reprHtml s => some (.html s)       -- isinstance(value, ReprHtml): handler(HTML(value._repr_html_()))
   | .none => Option.none                -- value in (None, ...)
   | .ellipsis => Option.none
-  | v => some v
+  | v => some v                         -- str, number, HTML, list, tuple, anything else
 
-/-- `_tagchilds_to_tagnodes([v])` (_core.py:1927-1944), i.e. what `tag.append(v)` adds: `flatten` drops `None`,
-    numbers become `str`, anything that is not a TagNode is a `TypeError` -/
-def toItems : Val → Except Err (List Item)
-  | .none => .ok []
-  | .text s => .ok [.text s]
-  | .num s => .ok [.text s]
-  | .html s => .ok [.html s]
-  | .reprHtml s => .ok [.robj s]
-  | .tagRef t => .ok [.tagRef t]
-  | .ellipsis => .error .typeError
-  | .invalid => .error .typeError
+mutual
+  /-- `_flatten_recurse` (_util.py:88-100) on one element: lists, tuples and TagLists are opened at any depth,
+      `None` is dropped, order is kept -/
+  def Val.flat : Val → List Val
+    | .list vs => vs.flat
+    | .tuple vs => vs.flat
+    | .tagList its => its.map Item.toVal
+    | .none => []
+    | v => [v]
+  def Vals.flat : Vals → List Val
+    | .nil => []
+    | .cons v vs => v.flat ++ vs.flat
+end
+
+/-- the body of the loop of `_tagchilds_to_tagnodes` (_core.py:1927-1944) on one flattened element: numbers become
+    `str`, a TagNode stays the object it is, anything else is a `TypeError` (sequences and `None` do not reach it) -/
+def nodeOf : Val → Except Err Item
+  | .text s => .ok (.text s)
+  | .num s => .ok (.text s)
+  | .html s => .ok (.html s)
+  | .reprHtml s => .ok (.robj s)
+  | .tagRef t => .ok (.tagRef t)
+  | .tagifiable s => .ok (.tobj s)
+  | .tagifiableRepr s => .ok (.trobj s)
+  | _ => .error .typeError
+
+/-- the loop itself: elements in order, the first one that is no TagNode raises -/
+def toNodes : List Val → Except Err (List Item)
+  | [] => .ok []
+  | v :: vs =>
+    match nodeOf v with
+    | .error e => .error e
+    | .ok i =>
+      match toNodes vs with
+      | .error e => .error e
+      | .ok is => .ok (i :: is)
+
+/-- `_tagchilds_to_tagnodes([v])`, i.e. what `tag.append(v)` adds: `flatten`, then the loop -/
+def toItems (v : Val) : Except Err (List Item) := toNodes v.flat
 
 /-- `tag_t.children.extend(items)` -/
 def St.addChildren (s : St) (t : TagId) (items : List Item) : St :=
@@ -159,6 +226,8 @@ mutual
       | .ok s' => (s', .done)
       | .error e => (s, .raised e)
     | .raise, s => (s, .raised .exception)
+    | .rebind _, s => (s, .done)                  -- the new list holds the same nodes: no value changes (the model has
+                                                  -- no identity for child lists; "that block's tag" is what counts)
     | .block t body, s =>
       match enterTag t s with
       | .error e => (s, .raised e)                -- `__enter__` raised: `__exit__` is not called
